@@ -26,14 +26,27 @@ theorem bind_isInternal {α β : Type} {o : Outcome α} {f : α → Outcome β}
 theorem floatCatch_eq_ok {v : PyVal} {x : XF} : floatCatch v = ok x ↔ pyFloat v = ok x := by
   unfold floatCatch; cases pyFloat v <;> simp
 
+theorem floatCatch_of_not_ok {v : PyVal} (h : ∀ x, pyFloat v ≠ ok x) : floatCatch v = valueError := by
+  unfold floatCatch
+  cases hp : pyFloat v with
+  | ok x => exact absurd hp (h x)
+  | _ => rfl
+
 theorem floatCatch_of_typeError {v : PyVal} (h : pyFloat v = typeError) : floatCatch v = valueError := by
   unfold floatCatch; rw [h]
 
 theorem floatCatch_of_valueError {v : PyVal} (h : pyFloat v = valueError) : floatCatch v = valueError := by
   unfold floatCatch; rw [h]
 
-theorem floatCatch_isInternal {v : PyVal} : (floatCatch v).isInternal = (pyFloat v).isInternal := by
+/-- `float()` wrapped in the validators' try/except never leaks another exception class -/
+theorem floatCatch_noInternal (v : PyVal) : (floatCatch v).isInternal = false := by
   unfold floatCatch; cases pyFloat v <;> rfl
+
+theorem catchOverflow_noInternal {α : Type} (o : Outcome α) : (catchOverflow o).isInternal = false := by
+  cases o <;> rfl
+
+theorem catchOverflow_eq_ok {α : Type} {o : Outcome α} {v : α} : catchOverflow o = ok v ↔ o = ok v := by
+  cases o <;> simp [catchOverflow]
 
 /-! ### extended floats -/
 
@@ -396,14 +409,13 @@ theorem toArr_noInternal {v : PyVal} (h : v.intsInInt64 = true) : (toArr v).isIn
   · rfl
   · exact toArrCore_noInternal v h
 
-theorem isnanScalar_noInternal {v : PyVal} (hfi : v.isFloatOrInt = true) (h : v.intsInInt64 = true) :
+theorem isnanScalar_noInternal {v : PyVal} (hfi : v.isFloatOrInt = true) :
     (isnanScalar v).isInternal = false := by
   cases v with
   | bool b => rfl
   | int i =>
-    simp only [PyVal.intsInInt64, inInt64, decide_eq_true_eq] at h
-    show (if -(2 ^ 63 : Int) ≤ i ∧ i < (2 ^ 63 : Int) then (ok false : Outcome Bool) else internal).isInternal = false
-    rw [if_pos h]; rfl
+    show (if -(2 ^ 63 : Int) ≤ i ∧ i < (2 ^ 63 : Int) then (ok false : Outcome Bool) else valueError).isInternal = false
+    split <;> rfl
   | float x => rfl
   | _ => simp [PyVal.isFloatOrInt] at hfi
 
@@ -426,21 +438,15 @@ theorem pyFloat_noInternal {v : PyVal} (h : v.intsInInt64 = true) : (pyFloat v).
   | enum t => rfl
   | obj => rfl
 
-theorem nanCheck_noInternal {v : PyVal} (hfi : v.isFloatOrInt = true) (h : v.intsInInt64 = true) :
+theorem nanCheck_noInternal {v : PyVal} (hfi : v.isFloatOrInt = true) :
     ((isnanScalar v).bind fun b => if b then valueError else ok v).isInternal = false := by
-  refine bind_isInternal (isnanScalar_noInternal hfi h) ?_
+  refine bind_isInternal (isnanScalar_noInternal hfi) ?_
   intro b _; cases b <;> rfl
 
-theorem floatCheck_noInternal {v : PyVal} (h : v.intsInInt64 = true) :
+theorem floatCheck_noInternal (v : PyVal) :
     ((floatCatch v).bind fun x => if x.isNan then valueError else ok (PyVal.float x)).isInternal = false := by
-  refine bind_isInternal (by rw [floatCatch_isInternal]; exact pyFloat_noInternal h) ?_
+  refine bind_isInternal (floatCatch_noInternal v) ?_
   intro x _; split <;> rfl
-
-theorem squeezeJax1_ints {v : PyVal} (h : v.intsInInt64 = true) : (squeezeJax1 v).intsInInt64 = true := by
-  unfold squeezeJax1
-  split
-  · rfl
-  · exact h
 
 theorem ensure2d_len (s : List Nat) : 2 ≤ (ensure2d s).length := by
   match s with
